@@ -105,11 +105,9 @@ class SDim(SV):
         return z3.And(*cs) if cs else True
 
     def identity_implies_equality(self):
-        cs = []
-        for vec, ref in self.singletons():
-            e = self.vec_eq(vec)
-            cs.append(z3.Implies(to_z3(self.ref) == ref, _b(e)))
-        return z3.And(*cs)
+        """the value of a dimension object is a function of its identity: DV_i(ref) == vec_i
+        (so two references to one object always compare equal)"""
+        return z3.And(*[DV[i](to_z3(self.ref)) == to_real(x) for i, x in enumerate(self.vec)])
 
     def _arith_result(self, it, vec):
         d = SDim(vec, z3.Int(it.ctx.fresh_name("dref")))
@@ -170,6 +168,16 @@ class SDim(SV):
         if name == "is_Mul" or name == "is_Pow" or name == "is_Number" or name == "is_Atom":
             raise Unsupported("structural query %s on dimension" % name)
         raise Unsupported("dimension attribute %s" % name)
+
+
+DV = [z3.Function("dimval_%d" % i, z3.IntSort(), z3.RealSort()) for i in range(NDIM)]
+
+
+def singleton_axioms():
+    cs = []
+    for d in [SDim.one()] + [SDim.base(n) for n in BASE_DIMS]:
+        cs.append(d.identity_implies_equality())
+    return cs
 
 
 def _b(e):
@@ -306,7 +314,37 @@ class SExpr(SV):
             return z3.Or(e_kind(self.term) == K_NUM, e_kind(self.term) == K_SYM)
         if name == "copy":
             return Intrinsic("expr.copy", lambda it_, s=self: s)
+        if name == "as_coeff_Mul":
+            return Intrinsic("expr.as_coeff_Mul", lambda it_, s=self: as_coeff_mul(it_, s))
+        if name in ("is_Unit", "units", "value", "shape", "registry", "dimensions", "expr"):
+            raise PyRaise("AttributeError")
         raise Unsupported("sympy attribute %s" % name)
+
+
+def as_coeff_mul(it, e):
+    """expr.as_coeff_Mul(): (c, m) with expr == c*m, c a positive Number (assumed sympy fact;
+    unit expressions only ever carry positive numeric coefficients)"""
+    c = it.fresh_real("coeff")
+    m = SExpr.fresh(it, "mulpart")
+    it.assume(c > 0)
+    it.assume(e.term == e_mul(e_num(c), m.term))
+    return (SCoeff(c), m)
+
+
+class SCoeff(SV):
+    """sympy Number returned by as_coeff_Mul"""
+
+    def __init__(self, v):
+        self.v = v
+
+    def sv_pyclass(self):
+        return "Number"
+
+    def sv_float(self, it):
+        return self.v
+
+    def sv_compare(self, it, op, other, reflected):
+        return it.compare(op, self.v, other)
 
 
 assumed("sympy-expr", "sympy unit expressions are uninterpreted terms with *, /, ** as "
@@ -500,7 +538,8 @@ class UnytDomain:
 
     # hooks -----------------------------------------------------------------------------
     def begin_path(self, it):
-        pass
+        for c in singleton_axioms():
+            it.assume(c)
 
     def may_inline(self, it, fi):
         return fi.qualname in self.inline
